@@ -434,14 +434,7 @@ func sortedBeforeUse(fn *ssa.Function, header *ssa.BasicBlock, li *loopInfo, col
 				first = u
 			}
 		}
-		isSort := func(c *ssa.CallCommon) bool {
-			sc := c.StaticCallee()
-			if sc == nil {
-				return false
-			}
-			n := fullName(sc)
-			return strings.HasPrefix(n, "sort.") || strings.HasPrefix(n, "slices.Sort")
-		}
+		isSort := isTotalOrderSort
 		switch x := first.(type) {
 		case *ssa.Call:
 			ok = isSort(&x.Call)
@@ -725,4 +718,257 @@ func (e *Engine) newSitesResult() *FuncResult {
 	ctx.addOblig("scan", "map-range-sites-enumerated", BoolLit(n > 0), fmt.Sprint(n))
 	res.Obligs = ctx.obligs
 	return res
+}
+
+// isTotalOrderSort: the call sorts its slice argument by an order that is total on the elements, so that
+// the result does not depend on the order the elements arrived in: sort.Strings / sort.Ints / slices.Sort,
+// or sort.Slice / sort.SliceStable whose comparison closure is exactly `xs[i] < xs[j]` (or >) on the
+// elements of one slice. A comparison through a derived key (mapping[xs[i]], xs[i].Name) may tie on
+// distinct elements: ties keep their arrival order (SliceStable) or an unspecified one (Slice).
+func isTotalOrderSort(c *ssa.CallCommon) bool {
+	sc := c.StaticCallee()
+	if sc == nil {
+		return false
+	}
+	n := fullName(sc)
+	if o := sc.Origin(); o != nil {
+		n = fullName(o)
+	}
+	switch n {
+	case "sort.Strings", "sort.Ints", "sort.Float64s", "slices.Sort":
+		return true
+	case "sort.Slice", "sort.SliceStable":
+		if len(c.Args) != 2 {
+			return false
+		}
+		return comparesElementsDirectly(c.Args[1])
+	}
+	return false
+}
+
+// comparesElementsDirectly: the function value is a closure literal whose body is `return s[i] < s[j]`
+// (or >) with s one captured slice variable and i, j its two parameters.
+func comparesElementsDirectly(v ssa.Value) bool {
+	var fn *ssa.Function
+	switch x := v.(type) {
+	case *ssa.MakeClosure:
+		fn, _ = x.Fn.(*ssa.Function)
+	case *ssa.Function:
+		fn = x
+	}
+	if fn == nil || len(fn.Params) != 2 {
+		return false
+	}
+	var ret *ssa.Return
+	n := 0
+	for _, b := range fn.Blocks {
+		for _, in := range b.Instrs {
+			switch x := in.(type) {
+			case *ssa.Return:
+				ret = x
+				n++
+			case *ssa.If, *ssa.Jump, *ssa.Call, *ssa.Store, *ssa.MapUpdate, *ssa.Lookup:
+				return false
+			}
+		}
+	}
+	if n != 1 || len(ret.Results) != 1 {
+		return false
+	}
+	cmp, ok := ret.Results[0].(*ssa.BinOp)
+	if !ok || (cmp.Op.String() != "<" && cmp.Op.String() != ">") {
+		return false
+	}
+	elem := func(v ssa.Value) (src ssa.Value, idx ssa.Value, ok bool) {
+		ld, isLd := v.(*ssa.UnOp)
+		if !isLd {
+			return nil, nil, false
+		}
+		ia, isIA := ld.X.(*ssa.IndexAddr)
+		if !isIA {
+			return nil, nil, false
+		}
+		s := ia.X
+		if sl, isL := s.(*ssa.UnOp); isL {
+			s = sl.X // the captured variable's cell
+		}
+		return s, ia.Index, true
+	}
+	s1, i1, ok1 := elem(cmp.X)
+	s2, i2, ok2 := elem(cmp.Y)
+	if !ok1 || !ok2 || s1 != s2 {
+		return false
+	}
+	if _, isFV := s1.(*ssa.FreeVar); !isFV {
+		return false
+	}
+	return (i1 == ssa.Value(fn.Params[0]) && i2 == ssa.Value(fn.Params[1])) || (i1 == ssa.Value(fn.Params[1]) && i2 == ssa.Value(fn.Params[0]))
+}
+
+// mapOrderHelpers: module functions that return a slice collected in map iteration order as it is
+// (tools.Keys): the obligation to sort lies with every caller.
+func (e *Engine) mapOrderHelpers() map[*ssa.Function]bool {
+	out := map[*ssa.Function]bool{}
+	for _, s := range e.mapRangeSites() {
+		fn := s.Fn
+		f := &Frame{ctx: newCtx(e, fn), fn: fn, tmap: TMap{}, vals: map[ssa.Value]Val{}}
+		f.analyzeLoops()
+		var header *ssa.BasicBlock
+		for _, b := range fn.Blocks {
+			for _, in := range b.Instrs {
+				if nx, ok := in.(*ssa.Next); ok && nx.Iter == ssa.Value(s.Range) {
+					header = b
+				}
+			}
+		}
+		li := f.loops[header]
+		if header == nil || li == nil {
+			continue
+		}
+		for ph := range collectedSlices(header, li) {
+			all, any := true, false
+			for _, ref := range *ph.Referrers() {
+				if _, isDbg := ref.(*ssa.DebugRef); isDbg {
+					continue
+				}
+				if li.body[ref.Block()] {
+					continue
+				}
+				any = true
+				if _, isRet := ref.(*ssa.Return); !isRet {
+					all = false
+				}
+			}
+			if all && any {
+				out[fn] = true
+			}
+		}
+	}
+	return out
+}
+
+// helperCallersResult: one obligation per call of a map-order helper in the pipeline code: the first
+// thing done with the result is a sort by a total order on its elements.
+func (e *Engine) helperCallersResult() *FuncResult {
+	ctx := newCtx(e, e.anyFunction())
+	ctx.fnKey = "map-order-helper-callers"
+	res := &FuncResult{Key: "map-order-helper-callers", Ctx: ctx}
+	helpers := e.mapOrderHelpers()
+	var keys []string
+	for k := range e.fnByKey {
+		keys = append(keys, k)
+	}
+	sort.Strings(keys)
+	n := 0
+	for _, k := range keys {
+		fn := e.fnByKey[k]
+		if !e.inModule(fn) || fn.Synthetic != "" {
+			continue
+		}
+		root := fn
+		for root.Parent() != nil {
+			root = root.Parent()
+		}
+		if root.Pkg != nil {
+			switch root.Pkg.Pkg.Name() {
+			case "main", "testutils":
+				continue
+			}
+		}
+		if root.Pkg != nil && strings.Contains(root.Pkg.Pkg.Path(), "/cmd/") {
+			continue // command-line front ends: messages, not generated output
+		}
+		ord := 0
+		for _, b := range fn.Blocks {
+			for _, in := range b.Instrs {
+				call, ok := in.(*ssa.Call)
+				if !ok {
+					continue
+				}
+				sc := call.Call.StaticCallee()
+				if sc == nil {
+					continue
+				}
+				if o := sc.Origin(); o != nil {
+					sc = o
+				}
+				if !helpers[sc] {
+					continue
+				}
+				n++
+				name := fmt.Sprintf("%s:%s%d:result-in-map-order-is-sorted-by-a-total-order-before-use", k, sc.Name(), ord)
+				ord++
+				pos := e.prog.Fset.Position(call.Pos())
+				ctx.addOblig("commute", name, BoolLit(firstUseIsTotalSort(call)), fmt.Sprintf("%s:%d", shortPath(pos.Filename), pos.Line))
+			}
+		}
+	}
+	ctx.addOblig("scan", "map-order-helpers-enumerated", BoolLit(len(helpers) > 0), fmt.Sprintf("%d helpers, %d call sites", len(helpers), n))
+	res.Obligs = ctx.obligs
+	return res
+}
+
+// firstUseIsTotalSort: the value (or the variable it is stored into) is handed to a total-order sort
+// before anything else reads it.
+func firstUseIsTotalSort(v ssa.Value) bool {
+	refs := v.Referrers()
+	if refs == nil {
+		return false
+	}
+	var uses []ssa.Instruction
+	for _, r := range *refs {
+		if _, isDbg := r.(*ssa.DebugRef); isDbg {
+			continue
+		}
+		uses = append(uses, r)
+	}
+	if len(uses) == 0 {
+		return true // result unused
+	}
+	// stored into a (captured) variable first: look at the loads of that variable
+	if len(uses) == 1 {
+		if st, isSt := uses[0].(*ssa.Store); isSt {
+			if a, isA := st.Addr.(*ssa.Alloc); isA {
+				var first ssa.Instruction
+				for _, b := range a.Parent().Blocks {
+					for _, in := range b.Instrs {
+						if ld, isLd := in.(*ssa.UnOp); isLd && ld.X == ssa.Value(a) && first == nil && b == st.Block() {
+							first = in
+						}
+					}
+				}
+				if ld, ok := first.(*ssa.UnOp); ok {
+					return firstUseIsTotalSort(ld)
+				}
+				return false
+			}
+		}
+	}
+	first := uses[0]
+	for _, u := range uses[1:] {
+		if u.Block() == first.Block() {
+			for _, in := range u.Block().Instrs {
+				if in == u {
+					first = u
+					break
+				}
+				if in == first {
+					break
+				}
+			}
+		} else if u.Block().Dominates(first.Block()) {
+			first = u
+		}
+	}
+	switch x := first.(type) {
+	case *ssa.Call:
+		return isTotalOrderSort(&x.Call)
+	case *ssa.MakeInterface:
+		for _, r2 := range *x.Referrers() {
+			if c, isCall := r2.(*ssa.Call); isCall && isTotalOrderSort(&c.Call) {
+				return true
+			}
+		}
+	}
+	return false
 }
